@@ -270,7 +270,8 @@ def rule_S6(ctx: Ctx) -> None:
     if not gmap or not tent:
         ctx.unknown(f, {}, "g map and tentative cost recognised")
         return
-    skips = [n for n in ast.walk(nl) if isinstance(n, ast.If) and any(isinstance(s, ast.Continue) for s in n.body) and f"{gmap}[{nb}]" in X.U(n.test)]
+    skips = [n for n in ast.walk(nl) if isinstance(n, ast.If) and any(isinstance(s, ast.Continue) for s in n.body)
+             and (f"{gmap}[" in X.U(n.test) or tent in N.names_in(n.test))]
     exp = "a known neighbour is skipped only when the new cost is not better: `g_temp >= g[n]` (or `>`); never when it is better"
     if not skips:
         # no skip at all: always overwriting is wrong only if it can overwrite a better cost
